@@ -75,9 +75,6 @@ JudgeEnc(v, r) ==
 \* ---------------------------------------------------------------- dec
 \* expected byte of segment s at 1-based index idx (header bytes, then the virtual payload pattern)
 ExpByte(s, idx) == IF idx <= Len(s.b) THEN s.b[idx] ELSE (idx - Len(s.b) - 1) % 251
-PatSum(from, n) ==  \* sum of (i % 251) for i in from..from+n-1, modulo 65521 (32 bit safe)
-  LET S(m) == ((m \div 251) % 65521) * 31375 + ((m % 251) * ((m % 251) - 1)) \div 2 IN
-  ((S(from + n) % 65521) + 65521 - (S(from) % 65521)) % 65521
 PieceOk(s, it, start) ==      \* piece `it` carries the bytes of s at start .. start + n - 1
   IF it.has_bytes = 1 THEN Len(it.bytes) = it.n /\ \A j \in 1..it.n : it.bytes[j] = ExpByte(s, start + j - 1)
   ELSE IF start > Len(s.b) THEN it.h = PatSum(start - Len(s.b) - 1, it.n)
